@@ -360,6 +360,11 @@ def run(ctx):
     if len(cases) != 30:
         raise MachineryError("expected 30 terminal states, got %d" % len(cases))
     ctx.exhaustive = True
+    if ctx.tier != "quick":
+        # further byte contents: sizes around the (forced) copy length of 7, around 4 KiB / 64 KiB buffers, and 300 KB
+        rnd = __import__("random").Random(ctx.seed)
+        for size in (2, 6, 7, 8, 13, 14, 15, 21, 4095, 4096, 4097, 65536, 65537, 300000):
+            CONTENTS["random%d" % size] = bytes(rnd.getrandbits(8) for _ in range(size))
     items = []
     seq = 0
     for c in cases:
